@@ -1,4 +1,5 @@
 import itertools
+import keyword
 from collections.abc import Mapping, Sequence
 from functools import update_wrapper
 from inspect import Parameter, Signature
@@ -63,9 +64,11 @@ class BuiltinConverterProvider(ConverterProvider):
             lambda x: "Cannot create top-level coercer",
         )
         closure_name = self._get_closure_name(request)
+        closure_var = self._get_closure_var(closure_name, request.signature)
         dumper_code, dumper_namespace = self._produce_code(
             signature=request.signature,
             closure_name=closure_name,
+            closure_var=closure_var,
             stub_function=request.stub_function,
             coercer=coercer,
         )
@@ -74,7 +77,7 @@ class BuiltinConverterProvider(ConverterProvider):
             code_gen_hook=fetch_code_gen_hook(mediator, LocStack(dst_loc)),
             namespace=dumper_namespace,
             closure_code=dumper_code,
-            closure_name=closure_name,
+            closure_name=closure_var,
             file_name=self._get_file_name(request),
         )
 
@@ -94,10 +97,11 @@ class BuiltinConverterProvider(ConverterProvider):
         signature: Signature,
         stub_function: Optional[Callable],
         closure_name: str,
+        closure_var: str,
         coercer: Coercer,
     ) -> tuple[str, Mapping[str, object]]:
         builder = CodeBuilder()
-        namespace = BuiltinCascadeNamespace(occupied={*signature.parameters.keys(), closure_name})
+        namespace = BuiltinCascadeNamespace(occupied={*signature.parameters.keys(), closure_var})
         namespace.add_outer_constant("_closure_signature", signature)
         namespace.add_outer_constant("_stub_function", stub_function)
         namespace.add_outer_constant("_update_wrapper", update_wrapper)
@@ -121,14 +125,14 @@ class BuiltinConverterProvider(ConverterProvider):
         ctx_passing = self._get_ctx_passing(parameters[1:])
         builder(
             f"""
-            def {closure_name}{no_types_signature}:
+            def {closure_var}{no_types_signature}:
                 return {coercer_var}({parameters[0].name}, {ctx_passing})
             """,
         )
         if stub_function is not None:
-            builder += f"_update_wrapper({closure_name}, _stub_function)"
-        builder += f"{closure_name}.__signature__ = _closure_signature"
-        builder += f"{closure_name}.__name__ = {closure_name!r}"
+            builder += f"_update_wrapper({closure_var}, _stub_function)"
+        builder += f"{closure_var}.__signature__ = _closure_signature"
+        builder += f"{closure_var}.__name__ = {closure_name!r}"
         return builder.string(), namespace.all_constants
 
     def _get_ctx_passing(self, ctx_parameters: Sequence[Parameter]) -> str:
@@ -150,6 +154,15 @@ class BuiltinConverterProvider(ConverterProvider):
         src = next(iter(request.signature.parameters.values()))
         dst = self._get_type_from_annotation(request.signature.return_annotation)
         return self._name_sanitizer.sanitize(f"convert_{src}_to_{dst}")
+
+    _OUTER_CONSTANTS = ("_closure_signature", "_stub_function", "_update_wrapper")
+
+    def _get_closure_var(self, closure_name: str, signature: Signature) -> str:
+        # the name of converter is data, it can contain any characters
+        var = self._name_sanitizer.sanitize(closure_name) or "_"
+        while var in signature.parameters or var in self._OUTER_CONSTANTS or keyword.iskeyword(var):
+            var += "_"
+        return var
 
     def _get_file_name(self, request: ConverterRequest) -> str:
         if request.function_name is not None:
